@@ -1,0 +1,40 @@
+//! Verification hook ops: text primitives (tabs, graphemes, widths).
+use unicode_segmentation::UnicodeSegmentation;
+
+use super::{hex, num, unhex};
+use crate::utils::tabs;
+
+pub fn handle(op: &str, args: &[&str]) -> Result<String, String> {
+    match (op, args) {
+        // text.graphemes <s> -> `<g>:<width>` per extended grapheme cluster
+        ("graphemes", [s]) => {
+            let s = unhex(s)?;
+            let parts: Vec<String> = s
+                .graphemes(true)
+                .map(|g| {
+                    format!(
+                        "{}:{}:{}",
+                        hex(g),
+                        unicode_width::UnicodeWidthStr::width(g),
+                        if g.trim().is_empty() { 1 } else { 0 }
+                    )
+                })
+                .collect();
+            Ok(format!("ok {}", parts.join(" ")).trim_end().to_string())
+        }
+        // text.expand <tabwidth> <s>
+        ("expand", [w, s]) => {
+            let cfg = tabs::TabCfg::new(num(w)?);
+            Ok(format!("ok {}", hex(&tabs::expand(&unhex(s)?, &cfg))))
+        }
+        // text.remove_prefix_and_expand <prefix> <tabwidth> <s>
+        ("remove_prefix_and_expand", [p, w, s]) => {
+            let cfg = tabs::TabCfg::new(num(w)?);
+            Ok(format!(
+                "ok {}",
+                hex(&tabs::remove_prefix_and_expand(num(p)?, &unhex(s)?, &cfg))
+            ))
+        }
+        _ => Err(format!("unknown op or arity: text.{op}")),
+    }
+}
